@@ -11,6 +11,7 @@ import (
 	"strconv"
 	"strings"
 	"sync"
+	"sync/atomic"
 	"syscall"
 	"time"
 
@@ -31,6 +32,7 @@ const (
 	cpBrokerDial          // 6 issued an id to listen on, dies before listening; the host dials it
 	cpBrokerAccept        // 7 promised to dial an id, dies instead; the host accepts on it
 	cpStdio               // 8 dies while streaming stdout/stderr
+	cpBrokerStorm         // 9 dies (SIGKILL) while many broker negotiations of the host are in flight on the control stream (gRPC)
 )
 
 // host operations (one script per crash point; these are the codes in the observation)
@@ -76,9 +78,12 @@ func genCrash(o opts) []crCase {
 			p string
 			m bool
 		}{{"netrpc", false}, {"grpc", false}, {"grpc", true}} {
-			for pt := cpBeforeOutput; pt <= cpStdio; pt++ {
-				if pt == cpInStream && pm.p != "grpc" {
+			for pt := cpBeforeOutput; pt <= cpBrokerStorm; pt++ {
+				if (pt == cpInStream || pt == cpBrokerStorm) && pm.p != "grpc" {
 					continue
+				}
+				if pt == cpBrokerStorm && pm.m {
+					continue // with multiplexing Accept sends nothing and a knock waits for a listener on the other side
 				}
 				delays := []int{0}
 				if pt == cpBrokerDial || pt == cpBrokerAccept {
@@ -254,6 +259,35 @@ func runOneCrash(c crCase) (sx.V, sx.V) {
 					return err
 				}))
 			}
+		case cpBrokerStorm:
+			// earlier rounds on plugins of their own (the window is the duration of one control-stream write), then this one
+			worst := opObs{op: opBrokerAccept, class: 1}
+			// schedule perturbation: every write of the control stream takes a few milliseconds in the first rounds, so that
+			// the plugin's death finds writes on their way out
+			var slowWrites int32 = 1
+			plugin.VerifSetHook(func(name string, id uint32) {
+				if name == "grpc.stream.write" && atomic.LoadInt32(&slowWrites) == 1 {
+					time.Sleep(4 * time.Millisecond)
+				}
+			})
+			for round := 0; round < 3 && worst.class == 1; round++ {
+				cl2, caller2, err := startVP(vpOpts{Proto: c.Proto, Mux: c.Mux, StartTO: 6 * time.Second})
+				if err != nil {
+					continue
+				}
+				pid2, _ := strconv.Atoi(cl2.ID())
+				worst.class = brokerStorm(caller2.GRPC(), pid2, 20+15*round, false)
+				go cl2.Kill()
+			}
+			atomic.StoreInt32(&slowWrites, 0)
+			died()
+			phase = 1
+			// this client's plugin first stops reading (SIGSTOP): the control stream's flow-control window fills up and the
+			// writes of the negotiations stay on their way out; then it dies
+			if x := brokerStorm(caller.GRPC(), pid, 0, true); worst.class == 1 {
+				worst.class = x
+			}
+			add(worst)
 		case cpStdio:
 			go caller.Call(vp.Req{Op: "write", Data: make([]byte, 1<<20)})
 			go caller.Call(vp.Req{Op: "write", K: "stderr", Data: make([]byte, 1<<20)})
@@ -344,6 +378,62 @@ func runOneCrash(c crCase) (sx.V, sx.V) {
 		ops = append(ops, sx.L{sx.I(x.op), sx.I(x.class), sx.I(slow), sx.I(x.phase)})
 	}
 	return in, sx.L{ops, sx.Bool(exited), sx.I(ctxDone), sx.I(0)}
+}
+
+// brokerStorm: eight goroutines keep negotiating brokered connections from the host's side (Accept sends the connection
+// information on the control stream) and the plugin is killed: after delayMs, or -- stall -- after it was stopped and the
+// negotiations have come to a halt behind a full flow-control window.  Every goroutine must come back with an error.
+// 1 = all returned an error in time, 2 = some did not return, 0 = they went on succeeding.
+func brokerStorm(gb *plugin.GRPCBroker, pid int, delayMs int, stall bool) int {
+	if gb == nil || pid <= 0 {
+		return 1
+	}
+	var wg sync.WaitGroup
+	var still, progress int64
+	if stall {
+		syscall.Kill(pid, syscall.SIGSTOP)
+	}
+	for g := 0; g < 8; g++ {
+		wg.Add(1)
+		go func() {
+			defer wg.Done()
+			deadline := time.Now().Add(25 * time.Second)
+			for time.Now().Before(deadline) {
+				ln, err := gb.Accept(gb.NextId())
+				if ln != nil {
+					ln.Close()
+				}
+				if err != nil {
+					return
+				}
+				atomic.AddInt64(&progress, 1)
+			}
+			atomic.AddInt64(&still, 1)
+		}()
+	}
+	if stall {
+		last, since := int64(-1), time.Now()
+		for t0 := time.Now(); time.Since(t0) < 10*time.Second; time.Sleep(20 * time.Millisecond) {
+			if p := atomic.LoadInt64(&progress); p != last {
+				last, since = p, time.Now()
+			} else if time.Since(since) > 400*time.Millisecond {
+				break
+			}
+		}
+	} else {
+		time.Sleep(time.Duration(delayMs) * time.Millisecond)
+	}
+	if os.Getenv("VERIF_DEBUG") != "" {
+		fmt.Fprintf(os.Stderr, "brokerStorm: stall=%v negotiations before the kill: %d\n", stall, atomic.LoadInt64(&progress))
+	}
+	syscall.Kill(pid, syscall.SIGKILL)
+	if !within(crashHangBound, wg.Wait) {
+		return 2
+	}
+	if atomic.LoadInt64(&still) > 0 {
+		return 0
+	}
+	return 1
 }
 
 // grpcDialAndCall: with multiplexing Dial only builds a lazy connection, so the dial is judged together with the first call on it
